@@ -51,7 +51,79 @@ var pkgPool = []string{"acme.foo.v1", "acme.bar.v1beta1", "zoo.v2", "acme.baz_qu
 var filePool = []string{"types", "service", "more_types", "api2", "a_1", "common", "x"}
 var mapKeyPool = []string{"string", "int32", "int64", "bool", "uint32"}
 var groupPool = []string{"Result", "Item", "FooGrp", "Entry2", "HTTPInfo", "G", "SubPart"}
-var optValuePool = [7][]string{{"Acme.Foo"}, {"example.com/gen/foo;foov1", "foo"}, {"true", "false"}, {"com.acme.foo"}, {`Acme\\Foo`}, {"Acme::Foo"}, {"ACME"}}
+
+// optValuePool: NON-default values of the seven PACKAGE_SAME_* options (java_multiple_files: the
+// only non-default is "true"); [1] differs from [0] in the CASE of one letter only, [2] is another value.
+var optValuePool = [7][]string{{"Acme.Foo", "Acme.foo", "Other.Ns"}, {"example.com/gen/foo;foov1", "example.com/gen/Foo;foov1", "foo"}, {"true"},
+	{"com.acme.foo", "com.acme.Foo", "org.other"}, {`Acme\\Foo`, `Acme\\foo`, `Other`}, {"Acme::Foo", "Acme::foo", "Other"}, {"ACME", "ACMe", "OTH"}}
+
+// optDefault is the explicit spelling of the DEFAULT value of option k: `= false` / `= ""`.
+func optDefault(k int) optT {
+	if k == 2 {
+		return setOpt("false")
+	}
+	return setOpt("")
+}
+
+// cleanOptConfig gives option k of the nf files of one package values that the documentation of
+// PACKAGE_SAME_<option> calls equal: all unset; all the same explicit value (non-default, or the
+// default spelled out); and — the string options only, where an unset option and `= ""` are one
+// value — a mixture of unset and explicitly empty.  An explicit `java_multiple_files = false` next
+// to a file without the option is NOT clean (the rule's message: "both values … and no value").
+func cleanOptConfig(r *hx.Rand, k, nf int) []optT {
+	out := make([]optT, nf)
+	switch c := r.Intn(12); {
+	case c < 5: // all unset
+	case c < 8:
+		for i := range out {
+			out[i] = setOpt(optValuePool[k][0])
+		}
+	case c == 8:
+		v := optValuePool[k][len(optValuePool[k])-1]
+		for i := range out {
+			out[i] = setOpt(v)
+		}
+	case c < 11 || k == 2: // the default, spelled out in every file
+		for i := range out {
+			out[i] = optDefault(k)
+		}
+	default: // unset and explicitly empty, mixed
+		for i := range out {
+			if r.Bool() {
+				out[i] = setOpt("")
+			}
+		}
+		if nf == 1 {
+			out[0] = setOpt("")
+		} else {
+			i := r.Intn(nf)
+			j := (i + 1 + r.Intn(nf-1)) % nf
+			out[i], out[j] = setOpt(""), unsetOpt()
+		}
+	}
+	return out
+}
+
+// explicit-default options that no lint rule reads: a rule that mistakes "has options" / "has a
+// location" for "has the value it forbids" reports them on a clean workspace
+func (g *gen) noise(pool []string, num, den int) []string {
+	var out []string
+	for _, o := range pool {
+		if g.r.Chance(num, den) {
+			out = append(out, o)
+		}
+	}
+	return out
+}
+
+var (
+	fileNoise  = []string{"option deprecated = false;", "option optimize_for = SPEED;", "option cc_generic_services = false;", "option java_generic_services = false;"}
+	msgNoise   = []string{"option deprecated = false;", "option no_standard_descriptor_accessor = false;"}
+	enumNoise  = []string{"option deprecated = false;"}
+	svcNoise   = []string{"option deprecated = false;"}
+	rpcNoise   = []string{"option idempotency_level = IDEMPOTENCY_UNKNOWN;", "option deprecated = false;"}
+	fieldNoise = []string{"deprecated = false"}
+)
 
 type avail struct {
 	r      ref
@@ -180,8 +252,9 @@ func (g *gen) fieldType(fi int, proto3 bool, f *fieldT) {
 
 func (g *gen) enum(scope string, nestedPrefix string, fi int, proto3 bool) enumT {
 	n := g.pascal(scope)
-	e := enumT{name: n.pascal, upper: n.upper, comment: g.comment(), detached: g.r.Chance(1, 8)}
-	e.values = append(e.values, valueT{name: n.upper + g.o.zero(), comment: g.comment(), number: 0})
+	e := enumT{name: n.pascal, upper: n.upper, comment: g.comment(), detached: g.r.Chance(1, 8),
+		aliasFalse: g.r.Chance(1, 4), noise: g.noise(enumNoise, 1, 5)}
+	e.values = append(e.values, valueT{name: n.upper + g.o.zero(), comment: g.comment(), number: 0, noise: g.noise(fieldNoise, 1, 8)})
 	k := 1 + g.r.Intn(3)
 	usedV := map[string]bool{}
 	for i := 0; i < k; i++ {
@@ -191,7 +264,7 @@ func (g *gen) enum(scope string, nestedPrefix string, fi int, proto3 bool) enumT
 		}
 		usedV[v] = true
 		// enum value names are scoped to the enclosing scope of the enum: the prefix makes them unique
-		e.values = append(e.values, valueT{name: n.upper + "_" + v, comment: g.comment(), number: len(e.values)})
+		e.values = append(e.values, valueT{name: n.upper + "_" + v, comment: g.comment(), number: len(e.values), noise: g.noise(fieldNoise, 1, 8)})
 	}
 	g.avail = append(g.avail, avail{ref{fi, nestedPrefix + e.name}, true, proto3})
 	return e
@@ -203,8 +276,9 @@ func (g *gen) extension(fi int, scope string) fieldT {
 	g.extNum++
 	name := hx.Pick(g.r, fieldPool)
 	name = g.uniq(scope, name, func(n int) string { return name + "_opt" + strconv.Itoa(n+1) })
-	f := fieldT{name: name, comment: g.comment(), detached: g.r.Chance(1, 10), scalar: hx.Pick(g.r, scalars), number: 50000 + g.extNum, oneof: -1}
-	proto3 := g.w.files[fi].syntax == "proto3"
+	f := fieldT{name: name, comment: g.comment(), detached: g.r.Chance(1, 10), scalar: hx.Pick(g.r, scalars), number: 50000 + g.extNum, oneof: -1,
+		noise: g.noise(fieldNoise, 1, 6)}
+	proto3 := g.w.files[fi].p3like()
 	if own := g.extendable[fi]; !proto3 && len(own) > 0 && g.r.Chance(2, 3) {
 		f.extOwn = hx.Pick(g.r, own)
 	} else {
@@ -224,7 +298,8 @@ func (g *gen) extension(fi int, scope string) fieldT {
 
 // mapField: `map<K, V> name = n;` — the compiler adds the synthetic nested message <Name>Entry.
 func (g *gen) mapField(fi int, inner string, proto3 bool, num int) fieldT {
-	f := fieldT{name: g.fieldName(inner), comment: g.comment(), detached: g.r.Chance(1, 10), number: num, oneof: -1, mapKey: hx.Pick(g.r, mapKeyPool)}
+	f := fieldT{name: g.fieldName(inner), comment: g.comment(), detached: g.r.Chance(1, 10), number: num, oneof: -1, mapKey: hx.Pick(g.r, mapKeyPool),
+		noise: g.noise(fieldNoise, 1, 6)}
 	g.fieldType(fi, proto3, &f)
 	g.used[inner+"\x00"+mapEntryName(f.name)] = true
 	return f
@@ -262,7 +337,7 @@ func (g *gen) message(fi int, scope, nestedPrefix string, depth int, proto3 bool
 	} else {
 		name = g.pascal(scope).pascal
 	}
-	m := msgT{name: name, comment: g.comment(), detached: g.r.Chance(1, 8), nestedFirst: g.r.Chance(1, 3)}
+	m := msgT{name: name, comment: g.comment(), detached: g.r.Chance(1, 8), nestedFirst: g.r.Chance(1, 3), noise: g.noise(msgNoise, 1, 6)}
 	inner := scope + "." + name
 	prefix := nestedPrefix + name + "."
 	// nested types first, so fields can refer to them
@@ -296,7 +371,7 @@ func (g *gen) message(fi int, scope, nestedPrefix string, depth int, proto3 bool
 			num++
 			continue
 		}
-		f := fieldT{name: g.fieldName(inner), comment: g.comment(), detached: g.r.Chance(1, 10), number: num, oneof: -1}
+		f := fieldT{name: g.fieldName(inner), comment: g.comment(), detached: g.r.Chance(1, 10), number: num, oneof: -1, noise: g.noise(fieldNoise, 1, 6)}
 		num++
 		g.fieldType(fi, proto3, &f)
 		switch {
@@ -323,7 +398,7 @@ func (g *gen) message(fi int, scope, nestedPrefix string, depth int, proto3 bool
 				num++
 				continue
 			}
-			f := fieldT{name: g.fieldName(inner), comment: g.comment(), number: num, oneof: len(m.oneofs) - 1}
+			f := fieldT{name: g.fieldName(inner), comment: g.comment(), number: num, oneof: len(m.oneofs) - 1, noise: g.noise(fieldNoise, 1, 6)}
 			num++
 			g.fieldType(fi, proto3, &f)
 			m.fields = append(m.fields, f)
@@ -350,14 +425,14 @@ func (g *gen) message(fi int, scope, nestedPrefix string, depth int, proto3 bool
 func (g *gen) service(fi int, pkgScope string) svcT {
 	f := g.w.files[fi]
 	base := g.pascal(pkgScope + "#svc")
-	s := svcT{name: base.pascal + g.o.svc(), comment: g.comment()}
+	s := svcT{name: base.pascal + g.o.svc(), comment: g.comment(), noise: g.noise(svcNoise, 1, 4)}
 	g.used[pkgScope+"\x00"+s.name] = true
 	n := 1 + g.r.Intn(3)
 	for i := 0; i < n; i++ {
 		g.rpcCount++
 		rn := hx.Pick(g.r, rpcVerbs) + hx.Pick(g.r, pascalPool).pascal
 		rn = g.uniq(pkgScope+"#rpc", rn, func(k int) string { return rn + strconv.Itoa(g.rpcCount) + "x" + strconv.Itoa(k) })
-		m := rpcT{name: rn, comment: g.comment(), dottedIn: g.r.Chance(1, 3)}
+		m := rpcT{name: rn, comment: g.comment(), dottedIn: g.r.Chance(1, 3), noise: g.noise(rpcNoise, 1, 4)}
 		prefix := ""
 		if g.r.Chance(1, 3) {
 			prefix = s.name
@@ -367,7 +442,7 @@ func (g *gen) service(fi int, pkgScope string) svcT {
 			m.in = empty
 			g.ensureImport(fi, -1, "google/protobuf/empty.proto")
 		} else {
-			req := g.message(fi, pkgScope, "", g.maxDepth, f.syntax == "proto3", prefix+rn+"Request")
+			req := g.message(fi, pkgScope, "", g.maxDepth, f.p3like(), prefix+rn+"Request")
 			f.msgs = append(f.msgs, req)
 			m.in = ref{fi, req.name}
 		}
@@ -375,7 +450,7 @@ func (g *gen) service(fi int, pkgScope string) svcT {
 			m.out = empty
 			g.ensureImport(fi, -1, "google/protobuf/empty.proto")
 		} else {
-			resp := g.message(fi, pkgScope, "", g.maxDepth, f.syntax == "proto3", prefix+rn+"Response")
+			resp := g.message(fi, pkgScope, "", g.maxDepth, f.p3like(), prefix+rn+"Response")
 			f.msgs = append(f.msgs, resp)
 			m.out = ref{fi, resp.name}
 		}
@@ -386,7 +461,7 @@ func (g *gen) service(fi int, pkgScope string) svcT {
 
 func (g *gen) fileBody(fi int) {
 	f := g.w.files[fi]
-	proto3 := f.syntax == "proto3"
+	proto3 := f.p3like()
 	scope := "pkg:" + f.pkg
 	for i, n := 0, g.r.Intn(3); i < n; i++ {
 		f.enums = append(f.enums, g.enum(scope, "", fi, proto3))
@@ -409,11 +484,34 @@ func (g *gen) fileBody(fi int) {
 	f.order = order
 }
 
+// toEditions respells a file generated with proto3 conventions for `edition = "2023";`: there is no
+// `optional` label — explicit presence is the default and may be SPELLED OUT with
+// `[features.field_presence = EXPLICIT]`; a singular scalar field may have IMPLICIT presence.
+// FIELD_NOT_REQUIRED is about `features.field_presence = LEGACY_REQUIRED` there (planted), so the
+// clean files carry the other two values of the feature, explicitly.
+func (g *gen) toEditions(f *fileT) {
+	f.eachField(func(_ string, fl *fieldT, _ *msgT, isExt bool, _ int) {
+		wasOptional := fl.label == "optional"
+		if wasOptional {
+			fl.label = ""
+		}
+		if isExt || fl.oneof >= 0 || fl.isMap() || fl.label == "repeated" {
+			return
+		}
+		switch {
+		case wasOptional || g.r.Chance(1, 4):
+			fl.presence = "EXPLICIT"
+		case fl.scalar != "" && g.r.Chance(1, 4):
+			fl.presence = "IMPLICIT"
+		}
+	})
+}
+
 // depFile is import-only and violates as many rules as possible (every kind of field included:
 // plain, nested, map, group, nested and file-level extension): nothing in it may be reported.
 func depFile() *fileT {
 	return &fileT{path: "Dep/BadFile.proto", pkg: "Dep_pkg", isImport: true, syntax: "proto2", order: []byte("emsx"),
-		opts:  [7]string{"", "dep/other", "", "", "", "", ""},
+		opts:  [7]optT{{}, setOpt("dep/other"), setOpt("true"), {}, {}, {}, {}},
 		enums: []enumT{{name: "bad_enum", values: []valueT{{name: "one", number: 1}, {name: "zero", number: 0}}}},
 		msgs: []msgT{{name: "bad_message", extRange: true,
 			fields: []fieldT{{name: "BadField", label: "required", scalar: "string", number: 1, oneof: -1},
@@ -443,7 +541,7 @@ func (g *gen) ensureKinds() {
 	have := map[string]bool{}
 	proto2File := -1
 	for fi, f := range g.w.files[:g.depIdx] {
-		if f.syntax != "proto3" && proto2File < 0 && len(f.msgs) > 0 {
+		if !f.p3like() && proto2File < 0 && len(f.msgs) > 0 {
 			proto2File = fi
 		}
 		if len(f.exts) > 0 {
@@ -474,7 +572,7 @@ func (g *gen) ensureKinds() {
 			m.exts = append(m.exts, g.extension(0, inner))
 		}
 		if !have["map"] {
-			m.fields = append(m.fields, g.mapField(0, inner, f0.syntax == "proto3", nextNum(m)))
+			m.fields = append(m.fields, g.mapField(0, inner, f0.p3like(), nextNum(m)))
 		}
 	}
 	if proto2File >= 0 {
@@ -507,20 +605,28 @@ func genWorkspace(r *hx.Rand, o lintOpts) *wsT {
 	}
 	for pi, pkg := range pkgs {
 		nf := 1 + r.Intn(3)
+		if r.Chance(1, 8) {
+			nf = 4
+		}
 		names := append([]string{}, filePool...)
 		hx.Shuffle(r, names)
-		var opts [7]string
-		for k := range opts {
-			if r.Chance(1, 3) {
-				opts[k] = hx.Pick(r, optValuePool[k])
-			}
+		var cfg [7][]optT
+		for k := range cfg {
+			cfg[k] = cleanOptConfig(r, k, nf)
 		}
 		for i := 0; i < nf; i++ {
 			syntax := "proto3"
 			if pi == proto2Slot && i == nf-1 {
 				syntax = "proto2"
+			} else if r.Chance(1, 4) {
+				syntax = "editions"
 			}
-			g.w.files = append(g.w.files, &fileT{path: strings.ReplaceAll(pkg, ".", "/") + "/" + names[i] + ".proto", pkg: pkg, syntax: syntax, opts: opts})
+			var opts [7]optT
+			for k := range opts {
+				opts[k] = cfg[k][i]
+			}
+			g.w.files = append(g.w.files, &fileT{path: strings.ReplaceAll(pkg, ".", "/") + "/" + names[i] + ".proto", pkg: pkg, syntax: syntax, opts: opts,
+				noise: g.noise(fileNoise, 1, 5)})
 		}
 	}
 	g.depIdx = len(g.w.files)
@@ -542,12 +648,17 @@ func genWorkspace(r *hx.Rand, o lintOpts) *wsT {
 	if !hasDep && len(f0.msgs) > 0 {
 		m := &f0.msgs[0]
 		fl := fieldT{name: "dep_ref", comment: []string{"Uses the dependency."}, ref: ref{g.depIdx, "bad_message"}, number: 900, oneof: -1}
-		if f0.syntax != "proto3" {
+		if !f0.p3like() {
 			fl.label = "optional"
 		}
 		m.fields = append(m.fields, fl)
 		g.ensureImport(0, g.depIdx, "")
 	}
 	g.ensureKinds()
+	for fi := 0; fi < g.depIdx; fi++ {
+		if g.w.files[fi].syntax == "editions" {
+			g.toEditions(g.w.files[fi])
+		}
+	}
 	return g.w
 }
